@@ -17,20 +17,29 @@ bytes content(size_t n, int kind, vh::Rng &r) {
   if (kind == 3 && n) { std::fill(m.begin(), m.end(), 0); m[n - 1] = 0x80; }
   return m;
 }
-bytes real_string_hash(int alg, const bytes &m) {
+bytes real_string_hash(int alg, const bytes &m, const bytes *prime = nullptr) {
   HashFactory hf;
   Hashmaster *h = hf.getHasher(hf.getType((u8_t)alg));
   bytes out(h->gethlen());
   static const uint8_t dummy = 0;
+  if (prime) { // the same hasher object digests another message first (objects are reused by HMAC and by callers)
+    bytes tmp(h->gethlen());
+    h->getStringHash(prime->empty() ? &dummy : prime->data(), (u32_t)prime->size(), tmp.data());
+  }
   h->getStringHash(m.empty() ? &dummy : m.data(), (u32_t)m.size(), out.data());
   delete h;
   return out;
 }
 // entry: 1 = file buffer from offset 0, 2 = with 64-byte prefix block, 3 = stream positioned at pos
-bytes real_file_hash(int alg, const bytes &m, int entry, size_t pos, const uint8_t *prefix) {
+bytes real_file_hash(int alg, const bytes &m, int entry, size_t pos, const uint8_t *prefix, const bytes *prime = nullptr) {
   HashFactory hf;
   Hashmaster *h = hf.getHasher(hf.getType((u8_t)alg));
   bytes out(h->gethlen());
+  if (prime) {
+    static const uint8_t dummy = 0;
+    bytes tmp(h->gethlen());
+    h->getStringHash(prime->empty() ? &dummy : prime->data(), (u32_t)prime->size(), tmp.data());
+  }
   vh::MemFile mf;
   mf.data = m;
   FILE *f = mf.open("r+");
@@ -93,6 +102,19 @@ void run_C07(Ctx &cx) {
             } else { got = real_file_hash(alg, m, 3, pos, nullptr); want = ref::hash(alg, m.data() + pos, m.size() - pos); }
             cx.rep.count("digests_compared");
             size_t eff = entry == 2 ? n + 64 : entry == 3 ? n - pos : n;
+            { // the same digest again from a hasher object that has already digested another message
+              bytes prime = r.bytes_((size_t)r.below(200));
+              bytes again = entry == 0 ? real_string_hash(alg, m, &prime)
+                                       : real_file_hash(alg, m, entry, pos, entry == 2 ? prefix : nullptr, &prime);
+              cx.rep.count("digests_compared");
+              cx.rep.count("digests_from_reused_object");
+              if (again != want) {
+                const char *an[] = {"sha1", "md5", "sha256"};
+                vh::J d;
+                d.str("got", vh::hex(again)).str("want", vh::hex(want)).num("first_message_len", (long long)prime.size()).num("len_mod_64", (long long)(eff % 64));
+                cx.rep.violation(std::string("C07|digest-mismatch|") + an[alg] + "|reused-hasher-object|" + (eff % 64 >= 56 ? "len-mod-64>=56" : "other"), "digest from a hasher object that was used before differs from libcrypto", d.done());
+              }
+            }
             if (got != want) {
               const char *an[] = {"sha1", "md5", "sha256"}, *en[] = {"string", "filebuf", "filebuf+prefix", "filebuf@pos"};
               vh::J d;
@@ -291,6 +313,62 @@ void run_C08(Ctx &cx) {
         }
         if (cx.idx % 2003 == 0) cx.rep.sample(desc);
       }
+  // (1b) one hmac object reused for several computations, hash mode changing between calls
+  for (int rep = 0; rep < (cx.thorough ? 400 : 60); rep++) {
+    if (!cx.take()) continue;
+    vh::Rng r = cx.case_rng();
+    cx.begin("{\"family\":\"reused-hmac-object\",\"rep\":" + std::to_string(rep) + "}");
+    hmac h;
+    int prev = -1;
+    for (int q = 0; q < 8; q++) {
+      int hm = (int)r.below(3);
+      uint8_t key[16];
+      r.fill(key, 16);
+      bytes m = r.bytes_((size_t)r.below(400));
+      vh::MemFile mf;
+      mf.data = m;
+      FILE *f = mf.open("r+");
+      uint8_t out[64];
+      memset(out, 0xEE, sizeof out);
+      bool viacmp = r.chance(40);
+      bytes want = ref::hmac(hm, key, 16, m.data(), m.size());
+      cx.rep.count("hmacs_compared");
+      cx.rep.count("hmacs_from_reused_object");
+      if (viacmp) {
+        bool okr = h.cmphmac((u8_t)hm, key, f, want.data());
+        fclose(f);
+        if (!okr) {
+          vh::J d;
+          d.num("hmode", hm).num("previous_hmode", prev).num("call_index", q);
+          cx.rep.violation("C08|reused-object|cmphmac-rejects-right-tag", "a reused hmac object rejected the correct tag", d.done());
+        }
+        // and a wrong tag (the right tag of ANOTHER hash mode, zero-extended) must be rejected
+        int other = (hm + 1 + (int)r.below(2)) % 3;
+        bytes wt = ref::hmac(other, key, 16, m.data(), m.size());
+        wt.resize(64, 0);
+        vh::MemFile mf2;
+        mf2.data = m;
+        FILE *f2 = mf2.open("r+");
+        bool acc = h.cmphmac((u8_t)hm, key, f2, wt.data());
+        fclose(f2);
+        if (acc) {
+          vh::J d;
+          d.num("hmode", hm).num("tag_of_hmode", other).num("call_index", q);
+          cx.rep.violation("C08|reused-object|cmphmac-accepts-other-modes-tag", "a reused hmac object accepted the tag of another hash mode", d.done());
+        }
+      } else {
+        h.gethmac((u8_t)hm, key, f, out);
+        fclose(f);
+        if (memcmp(out, want.data(), want.size()) || out[want.size()] != 0xEE) {
+          vh::J d;
+          d.num("hmode", hm).num("previous_hmode", prev).num("call_index", q).str("got", vh::hex(out, want.size())).str("want", vh::hex(want));
+          cx.rep.violation(std::string("C08|reused-object|hmac-mismatch|") + (prev >= 0 && prev != hm ? "after-mode-switch" : "same-mode"), "gethmac from a reused hmac object differs from RFC 2104", d.done());
+        }
+      }
+      prev = hm;
+    }
+    cx.rep.dist("class", vh::tuple_hash({4242, rep}));
+  }
   // (2) file level: tag position, range and zero fill on generated files, all T
   const size_t c = VH_CHUNK;
   for (int T = 1; T <= 16; T++)
